@@ -229,7 +229,7 @@ def oracle_cyl(grid, drops, mask, em):
 
 def check(ctx: vlib.Ctx) -> int:
     rng = random.Random(ctx.seed)
-    ok = vlib.prove(ctx, ["Proofs/C01.vo", "Model/LocateCases.vo"], gens=[])
+    ok = vlib.prove(ctx, ["Proofs/C01.vo", "Proofs/LabelClients.vo", "Model/LocateCases.vo"], gens=[])
     ctx.tie.append("hand-written models (Render, RenderSym, Locate, LocateSym, Overlap) + in-Coq correspondence of image, candidates and result")
     fails = []
     header = ("From Coq Require Import QArith ZArith List.\nImport ListNotations.\n"
